@@ -287,6 +287,26 @@ void run_t(vf::Ctx& c)
             auto const ez = hep::accumulate<hep::weighted_equally>(Z.results().begin(), Z.results().begin() + j);
             VF_CHECK(c, same_number(ep.value(), ez.value()) && same_number(ep.error(), ez.error()), "C06:combination-differs", "after " << j << " iterations the equally weighted "
                 << "combination differs between the two runs");
+            // counters of the combinations: calls and finite evaluations agree, the non-zero ones differ by the poisoned evaluations
+            std::size_t poisoned_so_far = 0, calls_so_far = 0;
+            for (std::size_t k = 0; k != j; ++k) { calls_so_far += calls[k]; }
+            for (std::size_t i = 0; i != calls_so_far; ++i) { poisoned_so_far += plan.counted[i]; }
+            for (auto const* pair : {&cp, &ep})
+            {
+                auto const& other = (pair == &cp) ? cz : ez;
+                VF_CHECK(c, pair->calls() == other.calls() && pair->finite_calls() == other.finite_calls() && pair->non_zero_calls() == other.non_zero_calls() + poisoned_so_far,
+                    "C06:combination-counters", "after " << j << " iterations the combination reports calls / non-zero / finite = " << pair->calls() << " / " << pair->non_zero_calls() << " / "
+                    << pair->finite_calls() << " in the poisoned run and " << other.calls() << " / " << other.non_zero_calls() << " / " << other.finite_calls() << " in the zeroed run ("
+                    << poisoned_so_far << " poisoned evaluations)");
+            }
+            // chi^2 / dof, which the verbose callback prints
+            if (j >= 2)
+            {
+                T const xp = hep::chi_square_dof<hep::weighted_with_variance>(P.results().begin(), P.results().begin() + j);
+                T const xz = hep::chi_square_dof<hep::weighted_with_variance>(Z.results().begin(), Z.results().begin() + j);
+                VF_CHECK(c, same_number(xp, xz), "C06:chi-square-differs", "after " << j << " iterations chi^2/dof is " << vf::show(xp) << " in the poisoned run and " << vf::show(xz)
+                    << " in the run where the same points returned zero");
+            }
             if (P.results()[j - 1].non_zero_calls() > 0 && P.results()[j - 1].finite_calls() == 0) { c.label("iteration-with-only-non-finite-values"); }
         }
     };
